@@ -226,9 +226,13 @@ class SphinxInventoryWriter:
         """
         Return header for project  with name.
         """
+        def one_line(text: str) -> str:
+            # The header is made of exactly four lines: a line break 
+            # in the project name or version must not add another one.
+            return ' '.join(text.splitlines())
         return f"""# Sphinx inventory version 2
-# Project: {self._project_name}
-# Version: {self._project_version}
+# Project: {one_line(self._project_name)}
+# Version: {one_line(self._project_version)}
 # The rest of this file is compressed with zlib.
 """.encode('utf-8')
 
